@@ -644,18 +644,22 @@ static std::string exec_line(World*& W, long lineno, const std::string& line) {
         }
         J.kvi("vanishing", G->isVanishing() ? 1 : 0);
         J.kvi("i0", G->getIndex(0)); J.kvi("i1", G->getIndex(1));
+        GreensFunction Gcopy(*G);            // the copy constructor must give an object with the same values
+        std::string ocopy = "[";
+        bool firstcopy = true;
         while (t.more()) {
             std::string what = t.word(); long k = t.l();
             std::string o = "[";
             for (long q = 0; q < k; q++) {
                 if (q) o += ",";
-                if (what == "n") { long n = t.l(); o += JOut::cnum((*G)(n)); }
+                if (what == "n") { long n = t.l(); o += JOut::cnum((*G)(n)); if (!firstcopy) ocopy += ","; firstcopy = false; ocopy += JOut::cnum(Gcopy(n)); }
                 else if (what == "z") { ComplexType z = t.c(); o += JOut::cnum((*G)(z)); }
                 else if (what == "tau") { double tau = t.d(); o += JOut::cnum(G->of_tau(tau)); }
                 else throw std::runtime_error("runner: gf bad selector");
             }
             J.kvraw(what.c_str(), o + "]");
         }
+        J.kvraw("ncopy", ocopy + "]");
         return J.done();
     }
 
@@ -691,7 +695,7 @@ static std::string exec_line(World*& W, long lineno, const std::string& line) {
             std::string o = "[";
             for (long q = 0; q < k; q++) {
                 if (q) o += ",";
-                if (what == "n") { long n = t.l(); o += JOut::cnum(X(n)); }
+                if (what == "n") { long n = t.l(); o += JOut::cnum(X(n)); Susceptibility Xc(X); if (Xc(n) != X(n) && !(std::isnan(Xc(n).real()) && std::isnan(X(n).real()))) throw std::runtime_error("runner: copy of Susceptibility evaluates differently"); }
                 else if (what == "z") { ComplexType z = t.c(); o += JOut::cnum(X(z)); }
                 else if (what == "tau") { double tau = t.d(); o += JOut::cnum(X.of_tau(tau)); }
                 else throw std::runtime_error("runner: susc bad selector");
